@@ -125,15 +125,15 @@ def spellArgPairs (ctx : Ctx) (assoc : List (Name × Name)) : Spec :=
 
 theorem spell_strings_pairs (ctx : Ctx) (assoc : List (Name × Name)) (hk : ∀ p ∈ assoc, ':' ∉ p.1) :
     parse (spellStrings assoc) ctx = parse (spellPairs assoc) ctx := by
-  unfold parse spellStrings spellPairs Spec.items
+  simp only [parse, spellStrings, spellPairs, Spec.items]
   exact parseItems_congr ctx _ _ (forall₂_map_of _ _ assoc fun p hp => item_str_equiv ctx p.1 p.2 (hk p hp))
 
 theorem spell_string_strings (ctx : Ctx) (assoc : List (Name × Name)) (hne : assoc ≠ [])
     (hk : ∀ p ∈ assoc, ',' ∉ p.1 ∧ ',' ∉ p.2) :
     parse (spellString assoc) ctx = parse (spellStrings assoc) ctx := by
-  unfold parse spellString spellStrings Spec.items
+  simp only [parse, spellString, spellStrings, Spec.items]
   rw [splitAll_joinWith ',' _ (by simpa using hne)]
-  · simp [List.map_map, Function.comp]
+  · simp only [List.map_map]; rfl
   · intro a ha
     simp only [List.mem_map] at ha
     obtain ⟨p, hp, rfl⟩ := ha
@@ -143,19 +143,19 @@ theorem spell_string_strings (ctx : Ctx) (assoc : List (Name × Name)) (hne : as
 
 theorem spell_pairs_dict (ctx : Ctx) (assoc : List (Name × Name)) :
     parse (spellPairs assoc) ctx = parse (spellDict assoc) ctx := by
-  unfold parse spellPairs spellDict Spec.items
-  simp [List.map_map, Function.comp]
+  simp only [parse, spellPairs, spellDict, Spec.items, List.map_map]
+  rfl
 
 theorem spell_dict_argvalues (ctx : Ctx) (assoc : List (Name × Name)) :
     parse (spellDict assoc) ctx = parse (spellDictArgValues ctx assoc) ctx := by
-  unfold parse spellDict spellDictArgValues Spec.items
+  simp only [parse, spellDict, spellDictArgValues, Spec.items]
   simp only [List.map_map]
   exact parseItems_congr ctx _ _ (forall₂_map_of _ _ assoc fun p _ =>
     item_valobj_equiv ctx p.1 p.2 (sigOf ctx p.1) (sigOf_spec ctx p.1))
 
 theorem spell_dict_argpairs (ctx : Ctx) (assoc : List (Name × Name)) :
     parse (spellDictArgValues ctx assoc) ctx = parse (spellArgPairs ctx assoc) ctx := by
-  unfold parse spellDictArgValues spellArgPairs Spec.items
+  simp only [parse, spellDictArgValues, spellArgPairs, Spec.items]
   simp only [List.map_map]
   exact parseItems_congr ctx _ _ (forall₂_map_of _ _ assoc fun p _ =>
     item_keyobj_equiv ctx p.1 (sigOf ctx p.1) _ (sigOf_spec ctx p.1))
@@ -337,5 +337,77 @@ theorem joinInto_spec (c : Ctx) : ∀ (acc r : Ctx), joinInto acc c = .ok r →
           · exact h2 q hq
         · simp [hs, hd] at h
       · simp [hs] at h
+
+end NutilsVerif.C13
+
+namespace NutilsVerif.C13
+
+theorem foldlM_joinInto_spec (l : List Ctx) : ∀ (acc r : Ctx), l.foldlM joinInto acc = .ok r →
+    (∀ n s, acc.lookup n = some s → r.lookup n = some s) ∧
+    (∀ c ∈ l, ∀ p ∈ c, r.lookup p.1 = some p.2) ∧
+    (∀ n s, r.lookup n = some s → acc.lookup n = some s ∨ ∃ c ∈ l, (n, s) ∈ c) := by
+  induction l with
+  | nil => intro acc r h; simp [List.foldlM, pure, Except.pure] at h; subst h; simp
+  | cons c rest ih =>
+    intro acc r h
+    simp only [List.foldlM, bind, Except.bind] at h
+    cases hj : joinInto acc c with
+    | error e => simp [hj] at h
+    | ok acc' =>
+      simp only [hj] at h
+      obtain ⟨a1, a2, a3⟩ := joinInto_spec c acc acc' hj
+      obtain ⟨b1, b2, b3⟩ := ih acc' r h
+      refine ⟨fun n s hn => b1 n s (a1 n s hn), ?_, ?_⟩
+      · intro c' hc' p hp
+        rcases List.mem_cons.1 hc' with rfl | hc'
+        · exact b1 p.1 p.2 (a2 p hp)
+        · exact b2 c' hc' p hp
+      · intro n s hn
+        rcases b3 n s hn with h' | ⟨c', hc', hm⟩
+        · rcases a3 n s h' with h'' | h''
+          · exact Or.inl h''
+          · exact Or.inr ⟨c, by simp, h''⟩
+        · exact Or.inr ⟨c', List.mem_cons_of_mem _ hc', hm⟩
+
+/-- `_join_arguments`: the result announces every argument of every operand with its shape and dtype, and nothing else -/
+theorem joinArguments_spec (l : List Ctx) (r : Ctx) (h : joinArguments l = .ok r) :
+    (∀ c ∈ l, ∀ p ∈ c, r.lookup p.1 = some p.2) ∧
+    (∀ n s, r.lookup n = some s → ∃ c ∈ l, (n, s) ∈ c) := by
+  cases l with
+  | nil => simp [joinArguments] at h; subst h; simp
+  | cons c rest =>
+    have h' : (c :: rest).foldlM joinInto [] = .ok r := h
+    obtain ⟨_, h2, h3⟩ := foldlM_joinInto_spec (c :: rest) [] r h'
+    refine ⟨h2, fun n s hn => ?_⟩
+    rcases h3 n s hn with h0 | h0
+    · simp at h0
+    · exact h0
+
+/-- `_Replace.__init__`: the announced arguments contain every unreplaced argument of the function and every
+argument of every replacement in the map -/
+theorem replaceInit_announces (spec : Spec) (ctx : Ctx) (d : List (Name × Replacement)) (joined : Ctx)
+    (h : replaceInit spec ctx = .ok (d, joined)) :
+    (∀ p ∈ ctx, (∀ q ∈ d, q.1 ≠ p.1) → joined.lookup p.1 = some p.2) ∧
+    (∀ q ∈ d, ∀ p ∈ q.2.arguments, joined.lookup p.1 = some p.2) := by
+  unfold replaceInit at h
+  cases hp : parse spec ctx with
+  | error e => simp [hp] at h
+  | ok l =>
+    simp only [hp] at h
+    split at h
+    · cases h
+    · cases hj : joinArguments (List.filter (fun x => !(replDict l).any (·.1 == x.1)) ctx :: (replDict l).map (·.2.arguments)) with
+      | error e => simp [hj] at h
+      | ok j =>
+        simp [hj] at h
+        obtain ⟨rfl, rfl⟩ := h
+        obtain ⟨h1, _⟩ := joinArguments_spec _ _ hj
+        constructor
+        · intro p hp' hnot
+          apply h1 _ List.mem_cons_self p
+          simp only [List.mem_filter, Bool.not_eq_true', List.any_eq_false, beq_iff_eq]
+          exact ⟨hp', fun q hq => by simpa using hnot q hq⟩
+        · intro q hq p hp'
+          exact h1 q.2.arguments (List.mem_cons_of_mem _ (List.mem_map.2 ⟨q, hq, rfl⟩)) p hp'
 
 end NutilsVerif.C13
